@@ -478,6 +478,93 @@ pub fn remove_stream<F: Fl, const UNSUB: bool, const LAST: bool, const OUTER: us
 }
 
 // ==========================================================================================
+// C11 (second part): two changes of the stream list racing with each other
+//   KIND 1: streams s0 (rx0), s1 (rx1), s2 (rx2).  actor 1 drops rx0, actor 2 drops rx1;
+//           afterwards only s2 may limit the sender.
+//   KIND 2: streams s0 (rx0), s1 (rx1).  actor 1 drops rx0, actor 2 does rx1.add_stream() -> rx2 (s2);
+//           afterwards s1 and s2 limit the sender and both get every value.
+//   actor 0: tx0 sends 1
+
+pub struct Rem2<F, const KIND: u8>(PhantomData<F>);
+
+impl<F: Fl, const KIND: u8> Prog for Rem2<F, KIND> {
+    const NACT: usize = 3;
+    const LEN: [u8; MAXACT] = [1, 1, 1, 0];
+    const BASE: [usize; MAXACT] = [0, 4, 8, 0];
+    #[inline(always)]
+    fn step(a: usize, _k: usize) {
+        match (KIND, a) {
+            (_, 0) => op_send::<F>(0, 0, 1),
+            (_, 1) => op_drop_rx::<F>(4, 0),
+            (1, _) => op_drop_rx::<F>(8, 1),
+            (_, _) => op_add_stream::<F>(8, 1, 2, 2),
+        }
+    }
+}
+
+pub fn remove_race<F: Fl, const KIND: u8, const OUTER: usize>(c: &LifeCfg) {
+    ledger::reset();
+    payload::reset();
+    sched::configure(c.depth, c.budget, c.kinds, c.per_site);
+    let mut w = World::<F>::new(c.cap);
+    set_world::<F>(&mut w);
+    w.rx[1] = Some(F::add_stream(w.rx[0].as_ref().unwrap()));
+    w.rx_stream[1] = 1;
+    if KIND == 1 {
+        w.rx[2] = Some(F::add_stream(w.rx[0].as_ref().unwrap()));
+        w.rx_stream[2] = 2;
+    }
+    ledger::declare_send(0, 0, 1);
+    ledger::declare_other(4, 1);
+    ledger::declare_other(8, 2);
+    // prefix: ps sends; stream 0 consumes pr0 of them (the other streams stay at the start)
+    let ps: u8 = kani::any();
+    kani::assume(ps <= c.pre_send);
+    let mut i = 0;
+    while i < c.pre_send {
+        let slot = PRE_SEND_SLOT0 + i as usize;
+        ledger::declare_send(slot, 8, 5 + i);
+        if i < ps {
+            op_send::<F>(slot, 0, 5 + i);
+        }
+        i += 1;
+    }
+    let pr0: u8 = kani::any();
+    kani::assume(pr0 <= ps && pr0 <= c.pre_recv);
+    let mut i = 0;
+    while i < c.pre_recv {
+        let s0 = PRE_RECV_SLOT0 + i as usize;
+        ledger::declare_recv(s0, 8, 0);
+        if i < pr0 {
+            op_recv::<F>(s0, 0);
+        }
+        i += 1;
+    }
+    run_concurrent::<Rem2<F, KIND>, OUTER>();
+    kani::cover!(sched::st().injected > 0, "an operation ran at a preemption point");
+    if KIND == 1 {
+        finish::<F>(&Finish {
+            n: c.n,
+            nstreams: 3,
+            full: 0b100,
+            drain_rx: [0, 0, 2],
+            probe_tx: 0,
+            probe_id0: 9,
+        });
+    } else {
+        finish::<F>(&Finish {
+            n: c.n,
+            nstreams: 3,
+            full: 0b110,
+            drain_rx: [0, 1, 2],
+            probe_tx: 0,
+            probe_id0: 9,
+        });
+    }
+    std::mem::forget(w);
+}
+
+// ==========================================================================================
 // C12: handle churn during traffic
 //   CH=1 senders 1 -> 2 -> 1:
 //     actor 0: send 1 (tx0, single-writer state), tx1 = tx0.clone(), send 2
@@ -665,6 +752,9 @@ life!(c11_bc_drop_last_o1, hk_c11_bc_drop_last_o1, Runner<Rem<BcB, false>, 1>, r
 life!(c11_bc_drop_last_o0, hk_c11_bc_drop_last_o0, Runner<Rem<BcB, false>, 0>, remove_stream::<BcB, false, true, 0>(&LQ));
 life!(c11_bc_unsub_last_o1, hk_c11_bc_unsub_last_o1, Runner<Rem<BcB, true>, 1>, remove_stream::<BcB, true, true, 1>(&LQ));
 life!(c11_bc_unsub_nonlast_o1, hk_c11_bc_unsub_nonlast_o1, Runner<Rem<BcB, true>, 1>, remove_stream::<BcB, true, false, 1>(&LQ));
+life!(c11_bc_droprace_o1, hk_c11_bc_droprace_o1, Runner<Rem2<BcB, 1>, 1>, remove_race::<BcB, 1, 1>(&LifeCfg { pre_recv: 1, ..LQ }));
+life!(c11_bc_addrace_o1, hk_c11_bc_addrace_o1, Runner<Rem2<BcB, 2>, 1>, remove_race::<BcB, 2, 1>(&LifeCfg { pre_recv: 1, ..LQ }));
+life!(c11_bc_addrace_o2, hk_c11_bc_addrace_o2, Runner<Rem2<BcB, 2>, 2>, remove_race::<BcB, 2, 2>(&LifeCfg { pre_recv: 1, ..LQ }));
 // C12
 life!(c12_mp_senders_o0, hk_c12_mp_senders_o0, Runner<Churn<MpB, 1>, 0>, churn::<MpB, 1, 0>(&LifeCfg { pre_send: 1, pre_recv: 1, ..LQ }));
 life!(c12_bc_senders_o0, hk_c12_bc_senders_o0, Runner<Churn<BcB, 1>, 0>, churn::<BcB, 1, 0>(&LifeCfg { pre_send: 1, pre_recv: 1, ..LQ }));
